@@ -261,7 +261,7 @@ def run(ctx: core.Ctx):
         raise MachineryError(f"{nf} of {len(cases)} recorded texts validated")
     ctx.extra["recorded_texts_validated_by_tlc"] = nf
     ctx.extra["example_engines"] = len([c for c in cases if not c["origin"].startswith(("seeded", "perturbed"))])
-    ctx.exhaustive = True
+    ctx.exhaustive = not ctx.quick      # the quick tier replays a stride of the enumerated cases (TLC checks all of them on the model)
     ctx.rule = (f"{n1} component-wise enumerated engines (every term class x parameter pattern x height class, activations, defuzzifiers, operators, flags, weights) "
                 f"replayed on the real exporter and importer with two text variants each; {nf} whole engines (seeded random, perturbed doubles, the shipped examples) "
                 "exported by the real code, validated by TLC and round-tripped")
